@@ -439,6 +439,199 @@ def threshold_cases():
     return out
 
 
+
+def builtin_inc_cases():
+    """[cbo] include_builtins = true: a built-in TYPE called anywhere is a dependency (cbo.go has one reader for a call that is the
+    value of an assignment and one for every other call), a built-in FUNCTION never is.  Decided against the model only."""
+    out = []
+    for pos in EXPR_POS + ["PNestedDefDecorator"]:
+        forms = ["builtin_type"] + (["builtin_func", "local"] if pos in ASSIGN_LIKE else [])
+        for form in forms:
+            imps, classes, ref = form_ref(form, "Dep", "K")
+            cls = dict(name="K", bases=[], members=place((("inst", ref), pos)))
+            out.append(mk_case(dict(imports=imps, classes=classes), cls, "builtins-included", {"position": pos, "form": form, "inc": True}, inc=True))
+    return out
+
+
+# ------------------------------------------------------------------------------------------
+# subscripted forms outside Class/Syntax.v: class K(Base[T]), x: mod.Container[T]   (Class/CBOGeneric.v)
+# ------------------------------------------------------------------------------------------
+REQ_GEN = REQ.replace("Class.CBORun.", "Class.CBORun Class.CBOGeneric.")
+
+
+def generic_cases():
+    out = []
+    run = ("method", dict(name="run", decos=[], params=[], ret=None, body=[]))
+    for form in ("from", "fromas", "local", "builtin_type"):
+        imps, classes, ref = form_ref(form, "Base", "K")
+        for args in (["Dep"], ["Dep", "Other"], ["int"]):
+            for extra in (False, True):
+                bases = [("", "%s[%s]" % (ref[1], ", ".join(args)))] + ([("", "Plain")] if extra else [])
+                members = ([("attr", "field", ("gen1", "List", ("ref", ("", "Ann"))))] if extra else []) + [run]
+                f = dict(imports=imps + [("from", a) for a in args if a != "int"] + ([("from", "Plain")] if extra else []), classes=classes)
+                out.append(dict(what="base", file=f, cls=dict(name="K", bases=bases, members=members), base=ref, args=[("", a) for a in args],
+                                rest=["Ann", "Plain"] if extra else [], tags={"position": "base", "form": form, "shape": "subscript-base", "nargs": len(args)}))
+    for imp, prefix in ((("mod", "typing"), "typing"), (("modas", "typing", "t"), "t")):
+        for cont, args in (("List", ["Dep"]), ("Optional", ["Dep"]), ("Dict", ["str", "Dep"]), ("Tuple", ["Dep", "Other"])):
+            for where in ("attr", "param", "return"):
+                rs = [("ref", ("", a)) for a in args]
+                t = ("gen1", prefix + "." + cont, rs[0]) if len(rs) == 1 else ("gen2", prefix + "." + cont, rs[0], rs[1])
+                if where == "attr":
+                    members = [("attr", "field", t), run]
+                elif where == "param":
+                    members = [("method", dict(name="run", decos=[], params=[None, t], ret=None, body=[]))]
+                else:
+                    members = [("method", dict(name="run", decos=["property"], params=[], ret=t, body=[]))]
+                members.append(("attr", "other_field", ("ref", ("", "Ann"))))
+                f = dict(imports=[imp] + [("from", a) for a in args if a != "str"], classes=[])
+                out.append(dict(what="qualified-generic", file=f, cls=dict(name="K", bases=[], members=members), base=(prefix, cont),
+                                args=[("", a) for a in args], rest=["Ann"],
+                                tags={"position": where, "form": imp[0], "shape": "qualified-generic", "nargs": len(args)}))
+    return out
+
+
+def check_generic(ck):
+    """class K(Base[T]) and x: mod.Container[T]: implementation against Class/CBOGeneric.v (model and spec)"""
+    cases = generic_cases()
+    impl = lib.driver([{"op": "cbo", "src": cg.file_src(c["file"], c["cls"])} for c in cases])
+    items_b, items_q = [], []
+    for c in cases:
+        args = cg.clist([cg.cref_coq(a) for a in c["args"]])
+        if c["what"] == "base":
+            items_b.append("run_generic_base default_options (GBase %s %s)" % (cg.cref_coq(c["base"]), args))
+        else:
+            items_q.append("run_qualified_generic default_options %s %s" % (cg.cref_coq(c["base"]), args))
+    out = lib.coq_eval("C13_generic", REQ_GEN, "Definition bases := %s.\nDefinition quals := %s.\nEval vm_compute in (bases, quals).\n"
+                       % (cg.clist(items_b), cg.clist(items_q)))
+    mb, mq = lib.parse_coq_values(out)[0]
+    mb, mq = list(mb), list(mq)
+    n_known = n_bad = 0
+    for c, r in zip(cases, impl):
+        src = cg.file_src(c["file"], c["cls"])
+        ic = [x for x in r.get("classes", []) if x["name"] == "K"]
+        if "error" in r or len(ic) != 1:
+            ck.violation("CBO analysis failed or class K missing: %s" % str(r)[:300], {"source": src})
+            continue
+        deps = set(ic[0]["deps"])
+        rest = set(c["rest"])
+        if c["what"] == "base":
+            model, required, allowed = mb.pop(0)
+            model, required, allowed = ({dep_name(x) for x in y} for y in (model, required, allowed))
+            ok = (required | rest) <= deps <= (allowed | rest)
+            want = "at least %s, at most %s" % (sorted(required | rest), sorted(allowed | rest))
+        else:
+            model, spec = mq.pop(0)
+            model, spec = ({dep_name(x) for x in y} for y in (model, spec))
+            ok = deps == (spec | rest)
+            want = "%s" % sorted(spec | rest)
+        same_as_model = deps == (model | rest)
+        replay = {"kind": "generic", "tags": c["tags"], "source": src, "impl": ic[0], "model_deps": sorted(model | rest), "spec": want}
+        if ic[0]["cbo"] != len(ic[0]["deps"]):
+            ck.violation("CBO %d is not the number of listed dependencies %s" % (ic[0]["cbo"], ic[0]["deps"]), replay)
+        elif not ok:
+            e = ck.match_known(dict(c["tags"], **{"class": "subscript-form", "impl_equals_model": same_as_model}))
+            if e:
+                n_known += 1
+                ck.known_finding(e)
+            else:
+                n_bad += 1
+                if n_bad <= 3:
+                    ck.violation("CBO dependencies %s, the class names %s [%s]" % (sorted(deps), want, c["tags"]), replay)
+        elif not same_as_model:
+            n_bad += 1
+            if n_bad <= 3:
+                ck.violation("implementation %s differs from the model of cbo.go (Class/CBOGeneric.v) %s" % (sorted(deps), sorted(model | rest)), replay)
+    return len(cases), n_known, n_bad
+
+
+def stdlib_table():
+    """the names initializeStandardLibs (cbo.go) lists: what [cbo] include_imports = false removes"""
+    import re
+    src = open(os.path.join(lib.REPO, "internal", "analyzer", "cbo.go")).read()
+    m = re.search(r"stdlibs\s*:=\s*\[\]string\{(.*?)\}", src, re.S)
+    return re.findall(r'"([^"]+)"', m.group(1)) if m else None
+
+
+def cli_classes(ck, d, toml, files, select="cbo"):
+    with open(os.path.join(d, ".pyscn.toml"), "w") as f:
+        f.write(toml)
+    for name, text in files.items():
+        with open(os.path.join(d, name), "w") as f:
+            f.write(text)
+    rc, data, err = lib.analyze_json(d, ["--select", select])
+    if data is None or "cbo" not in data:
+        ck.broken_ties.append("e2e options: pyscn analyze produced no cbo report (rc=%s) with\n%s\n%s" % (rc, toml, err[-300:]))
+        return None
+    return {(os.path.basename(cl["FilePath"]), cl["Name"]): cl for cl in data["cbo"].get("Classes") or []}
+
+
+def e2e_options(ck, cases, impl):
+    """analysis options that only the configuration file can set: [cbo] include_builtins, [cbo] include_imports, [analysis] exclude_patterns"""
+    n = 0
+    # --- include_builtins = true: the CLI agrees with the analyser called with IncludeBuiltins (which is decided against the model above)
+    picked = [(i, c, r) for i, (c, r) in enumerate(zip(cases, impl)) if c["kind"] == "builtins-included" and "error" not in r]
+    picked = picked[::max(1, len(picked) // 24)][:30]
+    got = cli_classes(ck, lib.fresh_dir("c13_e2e_inc"), "[cbo]\nshow_zeros = true\ninclude_builtins = true\n",
+                      {"inc_%d.py" % i: cg.file_src(c["file"], c["cls"]) for i, c, r in picked})
+    for i, c, r in picked if got is not None else []:
+        ic = [x for x in r["classes"] if x["name"] == "K"][0]
+        cl = got.get(("inc_%d.py" % i, "K"))
+        n += 1
+        cli = None if cl is None else (cl["Metrics"]["CouplingCount"], sorted(cl["Metrics"]["DependentClasses"] or []), cl["RiskLevel"])
+        if cli != (ic["cbo"], ic["deps"], ic["risk"]):
+            ck.violation("[cbo] include_builtins = true: pyscn analyze reports %s for class K, the analyser called with IncludeBuiltins reports %s"
+                         % (cli, (ic["cbo"], ic["deps"], ic["risk"])),
+                         {"kind": "e2e-include-builtins", "toml": "[cbo] include_builtins = true", "source": cg.file_src(c["file"], c["cls"]), "cli": cl, "driver": ic})
+    # --- include_imports = false: exactly the dependencies named like a module of cbo.go's standard-library table disappear
+    table = stdlib_table()
+    if not table:
+        ck.broken_ties.append("cannot read the standard-library table of cbo.go (initializeStandardLibs)")
+    else:
+        rot = ck.rng.randrange(len(table))
+        std = [table[(rot + k * 7) % len(table)] for k in range(4)]
+        files = {}
+        for j, (a, b) in enumerate(((std[0], std[1]), (std[2], std[3]))):
+            f = dict(imports=[("from", a), ("from", b), ("from", "Dep"), ("fromas", "OrigAl", "Al")], classes=["Loc"])
+            body = [(("inst", ("", b)), "PAssignValue"), (("inst", ("", "Dep")), "PReturnValue"), (("inst", ("", "Loc")), "PIfTest")]
+            cls = dict(name="K", bases=[("", a), ("", "Al")],
+                       members=[("attr", "field", ("gen1", "List", ("ref", ("", b)))), ("attr", "g", ("union", ("ref", ("", "Ann")), ("none",))),
+                                ("method", dict(name="run", decos=[], params=[("ref", ("", a + "x"))], ret=("ref", ("", a)), body=body))])
+            files["imp_%d.py" % j] = (f, cls, {a, b})
+        base = lib.driver([{"op": "cbo", "src": cg.file_src(f, c)} for f, c, _ in files.values()])
+        got = cli_classes(ck, lib.fresh_dir("c13_e2e_imp"), "[cbo]\nshow_zeros = true\ninclude_imports = false\n",
+                          {k: cg.file_src(f, c) for k, (f, c, _) in files.items()})
+        for (k, (f, c, stdn)), r in zip(files.items(), base) if got is not None else []:
+            ic = [x for x in r["classes"] if x["name"] == "K"][0]
+            want = sorted(set(ic["deps"]) - set(table))
+            n += 1
+            cl = got.get((k, "K"))
+            cli = None if cl is None else sorted(cl["Metrics"]["DependentClasses"] or [])
+            if not (stdn <= set(ic["deps"])) or cli != want or cl["Metrics"]["CouplingCount"] != len(want):
+                ck.violation("[cbo] include_imports = false: pyscn analyze lists %s for class K; with the default it lists %s, and only the names of "
+                             "cbo.go's standard-library modules %s may disappear (expected %s)" % (cli, ic["deps"], sorted(stdn), want),
+                             {"kind": "e2e-include-imports", "toml": "[cbo] include_imports = false", "source": cg.file_src(f, c), "cli": cl, "driver_default": ic})
+    # --- [analysis] exclude_patterns are FILE patterns: a class or dependency whose NAME matches one is still a class / a dependency
+    f = dict(imports=[("from", "DepA"), ("from", "Other"), ("from", "Exact")], classes=[])
+    k_cls = dict(name="K", bases=[("", "DepA")], members=[("attr", "x", ("ref", ("", "Other"))), ("attr", "y", ("gen1", "List", ("ref", ("", "Exact")))),
+                                                         ("method", dict(name="run", decos=[], params=[], ret=None, body=[(("inst", ("", "DepA")), "PReturnValue")]))])
+    l_cls = dict(name="DepLocal", bases=[("", "Other")], members=[])
+    src = cg.file_src(f, k_cls) + "\n\n" + "\n".join(cg.class_src(l_cls)) + "\n"
+    toml = "[cbo]\nshow_zeros = true\n[analysis]\nexclude_patterns = [\"Dep*\", \"Exact\", \"test_*.py\"]\n"
+    got = cli_classes(ck, lib.fresh_dir("c13_e2e_excl"), toml, {"shapes.py": src})
+    if got is not None:
+        n += 2
+        seen = {name: sorted(cl["Metrics"]["DependentClasses"] or []) for (_, name), cl in got.items()}
+        want = {"K": ["DepA", "Exact", "Other"], "DepLocal": ["Other"]}
+        if seen != want:
+            dropped_only = seen == {"K": ["Other"]}       # everything matching Dep* or named Exact gone, the rest intact
+            e = ck.match_known({"class": "analysis-exclude-patterns-on-class-names", "only_matching_names_dropped": dropped_only})
+            if e:
+                ck.known_finding(e)
+            else:
+                ck.violation("[analysis] exclude_patterns = [\"Dep*\", \"Exact\"] (file patterns; shapes.py does not match): pyscn analyze reports %s, the classes name %s" % (seen, want),
+                             {"kind": "e2e-exclude-patterns", "toml": toml, "source": src, "cli": got and {"%s:%s" % k: v for k, v in got.items()}})
+    return n
+
 # ------------------------------------------------------------------------------------------
 def coq_opts(case, dlow, dmed):
     lo = dlow if case["low"] is None else case["low"]
@@ -593,7 +786,7 @@ def main(tier):
     except Exception as e:
         ck.broken_ties.append("position table check failed: %s" % str(e)[-600:])
 
-    cases = position_matrix() + nested_matrix() + annotation_matrix() + threshold_cases() + builtin_core_cases()
+    cases = position_matrix() + nested_matrix() + annotation_matrix() + threshold_cases() + builtin_core_cases() + builtin_inc_cases()
     # built-ins included: tie only
     for c in annotation_matrix()[::7] + position_matrix()[7::23]:
         c = dict(c, inc=True)
@@ -713,17 +906,39 @@ def main(tier):
         n_e2e = e2e(ck, cases, impl)
     except Exception as e:
         ck.broken_ties.append("e2e run failed: %s" % str(e)[-600:])
+    try:
+        n_e2e += e2e_options(ck, cases, impl)
+    except Exception as e:
+        ck.broken_ties.append("e2e options run failed: %s" % str(e)[-600:])
+
+    # subscripted forms (parametrised base class, module-qualified generic container): Class/CBOGeneric.v, Props/C13Generic.v
+    n_gen = 0
+    try:
+        pr = lib.check_props("C13Generic.v")
+        ck.obligations = list(ck.obligations) + pr["names"]
+        if pr["ok"]:
+            ck.discharged = list(ck.discharged) + pr["names"]
+            ck.assumptions_printed += ["%s: %s" % (a, b) for a, b in pr["theorems"]]
+        else:
+            ck.broken_ties.append("proof: Props/C13Generic.v does not check: %s" % pr["log"][-1200:])
+        n_gen, k2, b2 = check_generic(ck)
+        n_known += k2
+        n_viol += b2
+    except Exception as e:
+        ck.broken_ties.append("generic (subscript) cases failed: %s" % str(e)[-800:])
 
     ck.samples = [{"source": reqs[i]["src"], "impl": results[i], "tags": cases[i]["tags"]} for i in (3, len(position_matrix()) + 5, len(cases) - 3) if results[i]]
     ck.cov.update({
-        "evaluations": len(cases) + n_table + n_e2e,
+        "evaluations": len(cases) + n_table + n_e2e + n_gen,
         "distinct_nontrivial": len(distinct),
         "rule": "position x import-form matrix (one instantiation per class), nested matrix (an instantiation hidden in the argument list of another call: "
                 "host kind x argument slot x statement context, full cross for assignment-like contexts, depth up to 4, one-more-argument pairs), base/annotation form x shape x place matrix, "
                 "threshold lattice (0..10 dependencies x 10 threshold pairs), random classes with 5 metamorphic variants each "
-                "(repeat, reorder, rename self, add unrelated, add one coupled class), parser position table (find-path), CLI runs; "
+                "(repeat, reorder, rename self, add unrelated, add one coupled class), built-ins included (every position x built-in type; built-in function / local class in assignment-like positions), "
+                "subscripted forms (class K(Base[T]) x import form x arity, x: mod.Container[T] x place x import form), parser position table (find-path), "
+                "CLI runs (default, [cbo] thresholds, include_builtins = true, include_imports = false, [analysis] exclude_patterns matching class names); "
                 "distinct = distinct source texts",
-        "input_distribution": dict(dist, position_table_probes=n_table, metamorphic_relations=n_meta, e2e_classes=n_e2e),
+        "input_distribution": dict(dist, position_table_probes=n_table, metamorphic_relations=n_meta, e2e_classes=n_e2e, subscript_forms=n_gen),
         "known_finding_cases": n_known,
         "model_mismatches": n_tie,
         "disagreements_checked": n_viol + n_tie + n_known,
